@@ -1297,8 +1297,8 @@ class HttpHeaderFieldValuePublicKeyPinningPin(FieldValueComponentStringBase64):
 @attr.s
 class HttpHeaderFieldValuePublicKeyPinning(FieldsSemicolonSeparated):
     pin_sha256 = attr.ib(
-        converter=attr.converters.optional(HttpHeaderFieldValuePublicKeyPinningPin.convert),
-        validator=attr.validators.optional(attr.validators.instance_of(HttpHeaderFieldValuePublicKeyPinningPin)),
+        converter=HttpHeaderFieldValuePublicKeyPinningPin.convert,
+        validator=attr.validators.instance_of(HttpHeaderFieldValuePublicKeyPinningPin),
         metadata={'human_readable_name': 'Pin (SHA-256)'}
     )
     max_age = attr.ib(
